@@ -18,14 +18,14 @@ section
 variable {p : Prog} {ck : Bool} {B : Nat} {dA : Nat} {fa : FAddr} {fns : List FDecl}
 
 theorem cS_ok (lib : Placed p B) (fok : FnsOK p ck B dA fa fns) :
-    ∀ (fuel : Nat) (F D ra : Nat) (hra : ra < 256 ^ p.w) (lp : Jt) (hlp : lp.cont < 256 ^ p.w ∧ lp.brk < 256 ^ p.w) (md : Md) (sb : Bool)
+    ∀ (fuel : Nat) (F D ra : Nat) (hra : ra < 256 ^ p.w) (lp : Jt) (hlp : lp.cont < 256 ^ p.w ∧ lp.brk < 256 ^ p.w) (md : Md) (sb dc : Bool)
       (s : S) (Γ : Gam) (env : Env) (pc o : Nat) (m : Mem) (env' : Env) (tr : List Ev) (res : Res),
       PlacedAt p pc (cS (cxOf p ck B dA) fa lp Γ pc o s) →
       pc + (cS (cxOf p ck B dA) fa lp Γ pc o s).length ≤ B →
-      SInv p md Γ env m F D o ra → Disj p.w Γ → wfS fns lp.vd (Γ.map Prod.fst) s = true →
+      SInv p md Γ env m F D o ra → Disj p.w Γ → wfS fns dc (Γ.map Prod.fst) s = true →
       pkS p.w o s ≤ D → p.w ≤ o →
       exec (256 ^ p.w) (8 * p.w) fns p.w fuel D o env s = some (env', tr, res) → FaultOK ck fns p.w res →
-      Safe p B dA ra lp md sb fns Γ env' F D o (pc + (cS (cxOf p ck B dA) fa lp Γ pc o s).length) m res s →
+      Safe p B dA ra lp md sb dc fns Γ env' F D o (pc + (cS (cxOf p ck B dA) fa lp Γ pc o s).length) m res s →
       Concl p B ra lp md Γ env' F D o pc (pc + (cS (cxOf p ck B dA) fa lp Γ pc o s).length) m tr res := by
   have hw := lib.hw
   have h64 := mul_w_lt_pow p.w hw
@@ -33,9 +33,9 @@ theorem cS_ok (lib : Placed p B) (fok : FnsOK p ck B dA fa fns) :
   have hBM := lib.hB
   intro fuel
   induction fuel with
-  | zero => intro F D ra hra lp hlp md sb s Γ env pc o m env' tr res _ _ _ _ _ _ _ hex; simp [exec] at hex
+  | zero => intro F D ra hra lp hlp md sb dc s Γ env pc o m env' tr res _ _ _ _ _ _ _ hex; simp [exec] at hex
   | succ f ih =>
-    intro F D ra hra lp hlp md sb s Γ env pc o m env' tr res hpl hB hinv hd hwf hpk ho hex hck hs
+    intro F D ra hra lp hlp md sb dc s Γ env pc o m env' tr res hpl hB hinv hd hwf hpk ho hex hck hs
     have hroom := hinv.fr.room; have htop := hinv.fr.top; have hFM := hinv.fr.lt
     have hoD : o ≤ D := by have := pkS_ge p.w s o; omega
     -- a fault exit: the machine is in the `division_by_zero` stub
@@ -113,7 +113,7 @@ theorem cS_ok (lib : Placed p B) (fok : FnsOK p ck B dA fa fns) :
           | cnt =>
             simp only [Post] at hpost ⊢
             exact ⟨hpost.1, decl_back hinv x hpost.2.1 hxn, hpost.2.2⟩
-        have hk := ih F D ra hra lp hlp md sb k ((x, o + p.w) :: Γ) (upd env x v) _ (o + p.w) m1 env' tr res hpl2 (by omega)
+        have hk := ih F D ra hra lp hlp md sb dc k ((x, o + p.w) :: Γ) (upd env x v) _ (o + p.w) m1 env' tr res hpl2 (by omega)
           hinv1 hd1 (by simpa using hwk) (by omega) (by omega) hex hck
           (hs.sub (by simp [noTry]) (by simp [youLevel]) (k1.mono (by omega)) (conv _ _ (by omega)))
         simpa using Concl.pre r1 (k1.mono (by omega)) hk (conv _ _ (by omega))
@@ -157,7 +157,7 @@ theorem cS_ok (lib : Placed p B) (fok : FnsOK p ck B dA fa fns) :
         have hinv2 := assign_inv hw hinv1 hd x v hvM hxin hoD
         have km2 : Keep p.w m (m1.writeLE (F - look Γ x) p.w v) F :=
           (k1.mono (by omega)).trans' (Keep.write _ _ _ _ _ _ (by omega) (by omega))
-        have hk := ih F D ra hra lp hlp md sb k Γ (upd env x v) _ o _ env' tr res hpl3 (by omega)
+        have hk := ih F D ra hra lp hlp md sb dc k Γ (upd env x v) _ o _ env' tr res hpl3 (by omega)
           hinv2 hd hwk (by omega) ho hex hck (hs.sub (by simp [noTry]) (by simp [youLevel]) km2 (post_conv (by omega)))
         have r01 : Reach (sphinx p) ⟨pc, m⟩ [] ⟨pc + (c.length + 1), m1.writeLE (F - look Γ x) p.w v⟩ := by
           simpa [Nat.add_assoc] using r1.trans st
@@ -185,7 +185,7 @@ theorem cS_ok (lib : Placed p B) (fok : FnsOK p ck B dA fa fns) :
           simp only [hk, Option.bind_eq_bind, Option.bind_some, Option.pure_def, Option.some.injEq, Prod.mk.injEq] at hex
           obtain ⟨rfl, rfl, rfl⟩ := hex
           obtain ⟨m1, r1, k1⟩ := hwr.1 v hev
-          have hkk := ih F D ra hra lp hlp md sb k Γ env _ o m1 envk trk resk hpl2 (by omega)
+          have hkk := ih F D ra hra lp hlp md sb dc k Γ env _ o m1 envk trk resk hpl2 (by omega)
             (hinv.keep k1 ho) hd hwk (by omega) ho hk hck (hs.sub (by simp [noTry]) (by simp [youLevel]) (k1.mono (by omega)) (post_conv (by omega)))
           exact Concl.pre r1 (k1.mono (by omega)) hkk (post_conv (by omega))
     | writeln e k =>
@@ -208,7 +208,7 @@ theorem cS_ok (lib : Placed p B) (fok : FnsOK p ck B dA fa fns) :
           obtain ⟨rfl, rfl, rfl⟩ := hex
           have y := yld_reach (p := p) pc 10 m c0
           rw [show 10 % p.M % 256 = 10 from by unfold Prog.M; rw [Nat.mod_eq_of_lt (show 10 < 256 ^ p.w by omega)]] at y
-          have hkk := ih F D ra hra lp hlp md sb k Γ env _ o m envk trk resk hpl2 (by omega) hinv hd hwf hpk ho hk hck
+          have hkk := ih F D ra hra lp hlp md sb dc k Γ env _ o m envk trk resk hpl2 (by omega) hinv hd hwf hpk ho hk hck
             (hs.sub (by simp [noTry]) (by simp [youLevel]) (Keep.refl _ _ _) (post_conv (by omega)))
           simpa using Concl.pre y (Keep.refl _ _ _) hkk (post_conv (by omega))
       | some e =>
@@ -237,7 +237,7 @@ theorem cS_ok (lib : Placed p B) (fok : FnsOK p ck B dA fa fns) :
             obtain ⟨m1, r1, k1⟩ := hwr.1 v hev
             have y := yld_reach (p := p) (pc + (cWrite (cxOf p ck B dA) Γ pc o e).length) 10 m1 (placed_one hpl2)
             rw [show 10 % p.M % 256 = 10 from by unfold Prog.M; rw [Nat.mod_eq_of_lt (show 10 < 256 ^ p.w by omega)]] at y
-            have hkk := ih F D ra hra lp hlp md sb k Γ env _ o m1 envk trk resk hpl3 (by omega)
+            have hkk := ih F D ra hra lp hlp md sb dc k Γ env _ o m1 envk trk resk hpl3 (by omega)
               (hinv.keep k1 ho) hd hwk (by omega) ho hk hck (hs.sub (by simp [noTry]) (by simp [youLevel]) (k1.mono (by omega)) (post_conv (by omega)))
             have r01 : Reach (sphinx p) ⟨pc, m⟩ (outs (decimalW (256 ^ p.w) v) ++ [Ev.out 10])
                 ⟨pc + ((cWrite (cxOf p ck B dA) Γ pc o e).length + 1), m1⟩ := by
@@ -262,7 +262,7 @@ theorem cS_ok (lib : Placed p B) (fok : FnsOK p ck B dA fa fns) :
         have y := yld_reach (p := p) pc _ m c0
         rw [show c % (cxOf p ck B dA).M % p.M % 256 = c % 256 ^ p.w % 256 from by
           unfold Prog.M; show c % 256 ^ p.w % 256 ^ p.w % 256 = _; rw [Nat.mod_mod]] at y
-        have hkk := ih F D ra hra lp hlp md sb k Γ env _ o m envk trk resk hpl2 (by omega) hinv hd hwf hpk ho hk hck
+        have hkk := ih F D ra hra lp hlp md sb dc k Γ env _ o m envk trk resk hpl2 (by omega) hinv hd hwf hpk ho hk hck
           (hs.sub (by simp [noTry]) (by simp [youLevel]) (Keep.refl _ _ _) (post_conv (by omega)))
         simpa using Concl.pre y (Keep.refl _ _ _) hkk (post_conv (by omega))
     | block b k =>
@@ -291,7 +291,7 @@ theorem cS_ok (lib : Placed p B) (fok : FnsOK p ck B dA fa fns) :
                 Concl p B ra lp md Γ envk F D o (pc + (cS (cxOf p ck B dA) fa lp Γ pc o b).length)
                   (pc + (cS (cxOf p ck B dA) fa lp Γ pc o b).length +
                     (cS (cxOf p ck B dA) fa lp Γ (pc + (cS (cxOf p ck B dA) fa lp Γ pc o b).length) o k).length) m1 trk resk :=
-              fun m1 hi1 km1 => ih F D ra hra lp hlp md sb k Γ env1 (pc + (cS (cxOf p ck B dA) fa lp Γ pc o b).length) o m1 envk trk resk hpl2 (by omega)
+              fun m1 hi1 km1 => ih F D ra hra lp hlp md sb dc k Γ env1 (pc + (cS (cxOf p ck B dA) fa lp Γ pc o b).length) o m1 envk trk resk hpl2 (by omega)
                 hi1 hd hwf.2 (by omega) ho hk hck
                 (hs.sub' (k := k) (by simp only [noTry, Bool.and_eq_true]; exact fun h => h.2)
                   (by simp only [youLevel, Bool.and_eq_true]; exact fun h => h.2) km1 (post_conv (by omega)))
@@ -307,14 +307,14 @@ theorem cS_ok (lib : Placed p B) (fok : FnsOK p ck B dA fa fns) :
               subst hpc1
               obtain ⟨st', r2, hp2⟩ := (contK m1 hi1 km1).2 hprem
               exact (r2.exec (h2 st' (by refine post_conv ?_ st' (hp2.rebase km1); omega))).2
-            have hsb : Safe p B dA ra lp md sb fns Γ env1 F D o (pc + (cS (cxOf p ck B dA) fa lp Γ pc o b).length) m .norm b := by
+            have hsb : Safe p B dA ra lp md sb dc fns Γ env1 F D o (pc + (cS (cxOf p ck B dA) fa lp Γ pc o b).length) m .norm b := by
               rcases hs with ⟨hmd, hvd, h, hw⟩ | ⟨hmd, hvd, h1, hst, h2⟩
               · left; simp only [noTry, Bool.and_eq_true] at h
                 exact ⟨hmd, hvd, h.1, hw.imp id (fun hf => ⟨hf.1, fin (fun _ => hf.1) hf.2⟩)⟩
               · right
                 simp only [youLevel, Bool.and_eq_true] at h1
                 exact ⟨hmd, hvd, h1.1, hst, fin (nd (exec_no_defeat _ _ _ _ _ _ _ _ _ _ _ _ _ h1.2 hk)) h2⟩
-            have hbb := ih F D ra hra lp hlp md sb b Γ env pc o m env1 tr1 .norm hpl1 (by omega) hinv hd hwf.1 (by omega) ho hb1 trivial hsb
+            have hbb := ih F D ra hra lp hlp md sb dc b Γ env pc o m env1 tr1 .norm hpl1 (by omega) hinv hd hwf.1 (by omega) ho hb1 trivial hsb
             obtain ⟨st1, r1, hp1⟩ := hbb.2 (nd (by decide))
             obtain ⟨pc1, m1⟩ := st1
             simp only [Post] at hp1
@@ -334,7 +334,7 @@ theorem cS_ok (lib : Placed p B) (fok : FnsOK p ck B dA fa fns) :
             | retv v => simpa [Post] using h
             | brk => simpa [Post] using h
             | cnt => simpa [Post] using h
-          have hbb := ih F D ra hra lp hlp md sb b Γ env pc o m env1 tr1 res1 hpl1 (by omega) hinv hd hwf.1 (by omega) ho hb1 hck
+          have hbb := ih F D ra hra lp hlp md sb dc b Γ env pc o m env1 tr1 res1 hpl1 (by omega) hinv hd hwf.1 (by omega) ho hb1 hck
             (hs.sub (by simp only [noTry, Bool.and_eq_true]; exact fun h => h.1)
               (by simp only [youLevel, Bool.and_eq_true]; exact fun h => h.1) (Keep.refl _ _ _) (convb _ _))
           exact ⟨hbb.1, fun hnd => by obtain ⟨st1, r1, hp1⟩ := hbb.2 hnd; exact ⟨st1, r1, convb _ _ st1 hp1⟩⟩
@@ -350,7 +350,7 @@ theorem cS_ok (lib : Placed p B) (fok : FnsOK p ck B dA fa fns) :
       | true =>
         -- inside a `try/stop` body: `j [defeat]; halt` goes to the handler
         rcases hs with ⟨_, hvd, _⟩ | ⟨_, hvd, _⟩
-        · obtain ⟨v, rfl⟩ := hvd hv
+        · obtain ⟨v, rfl⟩ := hvd.1 hv
           obtain ⟨h1, h2, h3, h4, h6⟩ := hinv.dreg dA v rfl
           simp only [cS, hv] at hpl
           have c0 := hpl 0 (by simp); have c1 := hpl 1 (by simp)
@@ -387,14 +387,14 @@ theorem cS_ok (lib : Placed p B) (fok : FnsOK p ck B dA fa fns) :
           | false =>
             simp only [exec, hev] at hex
             obtain ⟨m1, r1, k1⟩ := hcd.1 hev
-            have hkk := ih F D ra hra lp hlp md sb k Γ env _ o m1 env' tr res hpl2 (by omega) (hinv.keep k1 ho) hd hwk (by omega) ho hex hck
+            have hkk := ih F D ra hra lp hlp md sb dc k Γ env _ o m1 env' tr res hpl2 (by omega) (hinv.keep k1 ho) hd hwk (by omega) ho hex hck
               (hs.sub (by simp [noTry]) (by simp [youLevel]) (k1.mono (by omega)) (post_conv (by omega)))
             simpa using Concl.pre r1 (k1.mono (by omega)) hkk (post_conv (by omega))
       | true =>
         -- inside a `try/stop` body: each conditional halt is preceded by `j [defeat]`
         rw [hv] at hpl1 hpl2 hB hs
         rcases hs with ⟨hmd, hvd, hnt, hwld⟩ | ⟨_, hvd, _⟩
-        · obtain ⟨v, rfl⟩ := hvd hv
+        · obtain ⟨v, rfl⟩ := hvd.1 hv
           obtain ⟨e1, e2, e3, e4, e6⟩ := hinv.dreg dA v rfl
           have hdw : DWord p dA v m F := ⟨by omega, e2, e3, e4, e6⟩
           have hpost : ∀ m', Keep p.w m m' (F - o) → Post p B ra lp (.stop dA v) Γ env F D o
@@ -421,7 +421,7 @@ theorem cS_ok (lib : Placed p B) (fok : FnsOK p ck B dA fa fns) :
             | false =>
               simp only [exec, hev] at hex
               have hkk : ∀ m1, Keep p.w m m1 (F - o) → _ := fun m1 k1 =>
-                ih F D ra hra lp hlp (.stop dA v) sb k Γ env _ o m1 env' tr res hpl2 (by omega) (hinv.keep k1 ho) hd hwk (by omega) ho hex hck
+                ih F D ra hra lp hlp (.stop dA v) sb dc k Γ env _ o m1 env' tr res hpl2 (by omega) (hinv.keep k1 ho) hd hwk (by omega) ho hex hck
                   (Safe.sub (Or.inl ⟨hmd, hvd, hnt, hwld⟩) (by simp [noTry]) (by simp [youLevel]) (k1.mono (by omega)) (post_conv (by omega)))
               have hcd := cD_ok_vd (ck := ck) (dA := dA) lib Γ env F D v c pc o m hdc hpl1 (by omega) hinv.fr hinv.vars hbc (by omega) ho hdw
                 (hwld.imp (fun h => h dA v rfl) (fun hf m' k' => ⟨fun _ => (by
@@ -477,7 +477,7 @@ theorem cS_ok (lib : Placed p B) (fok : FnsOK p ck B dA fa fns) :
           | cnt => simpa [Post] using h
         -- the branch taken, its code address and the address where it ends
         have hbranch : ∀ (X : S) (pcX nX : Nat), (cS (cxOf p ck B dA) fa lp Γ pcX o X).length = nX →
-            PlacedAt p pcX (cS (cxOf p ck B dA) fa lp Γ pcX o X) → pcX + nX ≤ B → wfS fns lp.vd (Γ.map Prod.fst) X = true → pkS p.w o X ≤ D →
+            PlacedAt p pcX (cS (cxOf p ck B dA) fa lp Γ pcX o X) → pcX + nX ≤ B → wfS fns dc (Γ.map Prod.fst) X = true → pkS p.w o X ≤ D →
             (noTry (.ifb c t e k) = true → noTry X = true) → (youLevel sb fns (.ifb c t e k) = true → youLevel sb fns X = true) →
             Reach (sphinx p) ⟨pc, m⟩ [] ⟨pcX, m0⟩ →
             (∀ m1, Reach (sphinx p) ⟨pcX + nX, m1⟩ [] ⟨pc + nC + nT + 2 + nE, m1⟩) →
@@ -503,7 +503,7 @@ theorem cS_ok (lib : Placed p B) (fok : FnsOK p ck B dA fa fns) :
               have contK : ∀ m1, SInv p md Γ env1 m1 F D o ra → Keep p.w m m1 (md.kb F p.w) →
                   Concl p B ra lp md Γ envk F D o (pc + nC + nT + 2 + nE)
                     (pc + nC + nT + 2 + nE + (cS (cxOf p ck B dA) fa lp Γ (pc + nC + nT + 2 + nE) o k).length) m1 trk resk :=
-                fun m1 hi1 km1 => ih F D ra hra lp hlp md sb k Γ env1 _ o m1 envk trk resk hplK (by omega) hi1 hd hwk (by omega) ho hk hck
+                fun m1 hi1 km1 => ih F D ra hra lp hlp md sb dc k Γ env1 _ o m1 envk trk resk hplK (by omega) hi1 hd hwk (by omega) ho hk hck
                   (hs.sub' (k := k) (by simp only [noTry, Bool.and_eq_true]; exact fun h => h.2)
                     (by simp only [youLevel, Bool.and_eq_true]; exact fun h => h.2) km1 (post_conv rfl))
               -- if no end of the whole list halts, no end of the branch does
@@ -519,7 +519,7 @@ theorem cS_ok (lib : Placed p B) (fok : FnsOK p ck B dA fa fns) :
                 have km := km0.kb.trans' km1
                 obtain ⟨st', r2, hp2⟩ := (contK m1 hi1 km).2 hprem
                 exact (((gX m1).trans r2).exec (h2 st' (hp2.rebase km))).2
-              have hsX : Safe p B dA ra lp md sb fns Γ env1 F D o (pcX + nX) m0 .norm X := by
+              have hsX : Safe p B dA ra lp md sb dc fns Γ env1 F D o (pcX + nX) m0 .norm X := by
                 rcases hs with ⟨hmd, hvd, h, hw⟩ | ⟨hmd, hvd, h1, hst, h2⟩
                 · left; exact ⟨hmd, hvd, hntX (by simpa [cS] using h), hw.imp id (fun hf => ⟨hf.1, fin (fun _ => hf.1) hf.2⟩)⟩
                 · right
@@ -527,7 +527,7 @@ theorem cS_ok (lib : Placed p B) (fok : FnsOK p ck B dA fa fns) :
                   simp only [youLevel, Bool.and_eq_true] at h1
                   exact ⟨hmd, hvd, hylX h1y, fun e => by rw [km0.size]; exact hst e,
                     fin (nd (exec_no_defeat _ _ _ _ _ _ _ _ _ _ _ _ _ h1.2 hk)) h2⟩
-              have hxx := ih F D ra hra lp hlp md sb X Γ env pcX o m0 env1 tr1 .norm hplX (by rw [hlenX]; omega) hinv0 hd hwX hpkX ho hb1 trivial
+              have hxx := ih F D ra hra lp hlp md sb dc X Γ env pcX o m0 env1 tr1 .norm hplX (by rw [hlenX]; omega) hinv0 hd hwX hpkX ho hb1 trivial
                 (by rw [hlenX]; exact hsX)
               rw [hlenX] at hxx
               obtain ⟨st1, r1, hp1⟩ := hxx.2 (nd (by decide))
@@ -541,9 +541,9 @@ theorem cS_ok (lib : Placed p B) (fok : FnsOK p ck B dA fa fns) :
               exact Concl.pre' r01 km (contK m1 hi1 km) (post_conv rfl)
           · simp only [hn, if_false, Option.pure_def, Option.some.injEq, Prod.mk.injEq] at hex
             obtain ⟨rfl, rfl, rfl⟩ := hex
-            have hsX : Safe p B dA ra lp md sb fns Γ env1 F D o (pcX + nX) m0 res1 X :=
+            have hsX : Safe p B dA ra lp md sb dc fns Γ env1 F D o (pcX + nX) m0 res1 X :=
               hs.sub (by intro h; exact hntX (by simpa [cS] using h)) (by intro h; exact hylX h) km0 (convN env1 res1 hn _ _)
-            have hxx := ih F D ra hra lp hlp md sb X Γ env pcX o m0 env1 tr1 res1 hplX (by rw [hlenX]; omega) hinv0 hd hwX hpkX ho hb1 hck
+            have hxx := ih F D ra hra lp hlp md sb dc X Γ env pcX o m0 env1 tr1 res1 hplX (by rw [hlenX]; omega) hinv0 hd hwX hpkX ho hb1 hck
               (by rw [hlenX]; exact hsX)
             rw [hlenX] at hxx
             simpa using Concl.pre rX km0 hxx (convN env1 res1 hn _ _)
@@ -616,7 +616,7 @@ theorem cS_ok (lib : Placed p B) (fok : FnsOK p ck B dA fa fns) :
         | false =>
           simp only [exec, hev] at hex
           simp only [Bool.false_eq_true, if_false, Option.getD_some] at r0
-          have hkk := ih F D ra hra lp hlp md sb k Γ env (pc + nC + nT + nE + 2) o m0 env' tr res hplK (by omega) hinv0 hd hwk (by omega) ho hex hck
+          have hkk := ih F D ra hra lp hlp md sb dc k Γ env (pc + nC + nT + nE + 2) o m0 env' tr res hplK (by omega) hinv0 hd hwk (by omega) ho hex hck
             (hs.sub (by simp only [noTry, Bool.and_eq_true]; exact fun h => h.2)
               (by simp only [youLevel, Bool.and_eq_true]; exact fun h => h.2) km0 (post_conv rfl))
           simpa using Concl.pre r0 km0 hkk (post_conv rfl)
@@ -682,10 +682,10 @@ theorem cS_ok (lib : Placed p B) (fok : FnsOK p ck B dA fa fns) :
                     have L : ∀ m2, SInv p md Γ env2 m2 F D o ra → Keep p.w m m2 (md.kb F p.w) →
                         Concl p B ra lp md Γ env3 F D o pc (pc + nC + nT + nE + 2 + (cS (cxOf p ck B dA) fa lp Γ (pc + nC + nT + nE + 2) o k).length) m2 tr3 res3 := by
                       intro m2 hi2 km2
-                      have := ih F D ra hra lp hlp md sb (.loop c body cont k) Γ env2 pc o m2 env3 tr3 res3 hpl0 hB0 hi2 hd hwf0 hpk0 ho hb3 hck
+                      have := ih F D ra hra lp hlp md sb dc (.loop c body cont k) Γ env2 pc o m2 env3 tr3 res3 hpl0 hB0 hi2 hd hwf0 hpk0 ho hb3 hck
                         (by rw [etot]; exact hs0.sub' (fun h => h) (fun h => h) km2 (post_conv rfl))
                       rw [etot] at this; exact this
-                    have hsc : ∀ m1, Keep p.w m m1 (md.kb F p.w) → Safe p B dA ra lp md sb fns Γ env2 F D o (pc + nC + nT + nE) m1 .norm cont := by
+                    have hsc : ∀ m1, Keep p.w m m1 (md.kb F p.w) → Safe p B dA ra lp md sb dc fns Γ env2 F D o (pc + nC + nT + nE) m1 .norm cont := by
                       intro m1 km1
                       rcases hs0 with ⟨hmd, hvd, h, hw⟩ | ⟨hmd, hvd, h1, hst, h2⟩
                       · left; simp only [noTry, Bool.and_eq_true] at h
@@ -710,7 +710,7 @@ theorem cS_ok (lib : Placed p B) (fok : FnsOK p ck B dA fa fns) :
                         have g := goto_reach lib (pc + nC + nT + nE) pc m2 hplG (by omega)
                         obtain ⟨st', r3, hp3⟩ := (L m2 hi2 km2).2 (nd (exec_no_defeat _ _ _ _ _ _ _ _ _ _ _ _ _ h1' hb3))
                         exact ((g.trans r3).exec (h2 st' (hp3.rebase km2))).2
-                    have hsbd : Safe p B dA ra ⟨pc + nC + nT, pc + nC + nT + nE + 2, lp.vd⟩ md sb fns Γ env1 F D o (pc + nC + nT) m0 res1 body := by
+                    have hsbd : Safe p B dA ra ⟨pc + nC + nT, pc + nC + nT + nE + 2, lp.vd⟩ md sb dc fns Γ env1 F D o (pc + nC + nT) m0 res1 body := by
                       rcases hs0 with ⟨hmd, hvd, h, hw⟩ | ⟨hmd, hvd, h1, hst, h2⟩
                       · left; simp only [noTry, Bool.and_eq_true] at h
                         refine ⟨hmd, hvd, h.1.1, hw.imp id (fun hf => ⟨hf.1, fun st1 hp1 => ?_⟩)⟩
@@ -719,7 +719,7 @@ theorem cS_ok (lib : Placed p B) (fok : FnsOK p ck B dA fa fns) :
                         dsimp only at hpc1 hi1 k01
                         subst hpc1
                         have km1 := km0.kb.trans' k01
-                        have hcc := ih F D ra hra lp hlp md sb cont Γ env1 (pc + nC + nT) o m1 env2 tr2 .norm hplE (by rw [hlenE]; omega) hi1 hd hwc (by omega) ho hb2 trivial
+                        have hcc := ih F D ra hra lp hlp md sb dc cont Γ env1 (pc + nC + nT) o m1 env2 tr2 .norm hplE (by rw [hlenE]; omega) hi1 hd hwc (by omega) ho hb2 trivial
                           (by rw [hlenE]; exact hsc m1 km1)
                         rw [hlenE] at hcc
                         obtain ⟨st2, r2, hp2⟩ := hcc.2 (nd (by decide))
@@ -740,7 +740,7 @@ theorem cS_ok (lib : Placed p B) (fok : FnsOK p ck B dA fa fns) :
                         dsimp only at hpc1 hi1 k01
                         subst hpc1
                         have km1 := km0.kb.trans' k01
-                        have hcc := ih F D ra hra lp hlp md sb cont Γ env1 (pc + nC + nT) o m1 env2 tr2 .norm hplE (by rw [hlenE]; omega) hi1 hd hwc (by omega) ho hb2 trivial
+                        have hcc := ih F D ra hra lp hlp md sb dc cont Γ env1 (pc + nC + nT) o m1 env2 tr2 .norm hplE (by rw [hlenE]; omega) hi1 hd hwc (by omega) ho hb2 trivial
                           (by rw [hlenE]; exact hsc m1 km1)
                         rw [hlenE] at hcc
                         obtain ⟨st2, r2, hp2⟩ := hcc.2 (nd (by decide))
@@ -752,7 +752,7 @@ theorem cS_ok (lib : Placed p B) (fok : FnsOK p ck B dA fa fns) :
                         have g := goto_reach lib (pc + nC + nT + nE) pc m2 hplG (by omega)
                         obtain ⟨st', r3, hp3⟩ := (L m2 hi2 km2).2 (nd (exec_no_defeat _ _ _ _ _ _ _ _ _ _ _ _ _ h1' hb3))
                         exact ((r2.trans (g.trans r3)).exec (h2 st' (hp3.rebase km2))).2
-                    have hbb := ih F D ra hra ⟨pc + nC + nT, pc + nC + nT + nE + 2, lp.vd⟩ hlpB md sb body Γ env (pc + nC) o m0 env1 tr1 res1 hplT (by rw [hlenT]; omega) hinv0 hd hwb (by omega) ho hb1 hfo1
+                    have hbb := ih F D ra hra ⟨pc + nC + nT, pc + nC + nT + nE + 2, lp.vd⟩ hlpB md sb dc body Γ env (pc + nC) o m0 env1 tr1 res1 hplT (by rw [hlenT]; omega) hinv0 hd hwb (by omega) ho hb1 hfo1
                       (by rw [hlenT]; exact hsbd)
                     rw [hlenT] at hbb
                     obtain ⟨st1, r1, hp1⟩ := hbb.2 (nd hnd1)
@@ -761,7 +761,7 @@ theorem cS_ok (lib : Placed p B) (fok : FnsOK p ck B dA fa fns) :
                     dsimp only at hpc1 hi1 k01
                     subst hpc1
                     have km1 := km0.kb.trans' k01
-                    have hcc := ih F D ra hra lp hlp md sb cont Γ env1 (pc + nC + nT) o m1 env2 tr2 .norm hplE (by rw [hlenE]; omega) hi1 hd hwc (by omega) ho hb2 trivial
+                    have hcc := ih F D ra hra lp hlp md sb dc cont Γ env1 (pc + nC + nT) o m1 env2 tr2 .norm hplE (by rw [hlenE]; omega) hi1 hd hwc (by omega) ho hb2 trivial
                       (by rw [hlenE]; exact hsc m1 km1)
                     rw [hlenE] at hcc
                     obtain ⟨st2, r2, hp2⟩ := hcc.2 (nd (by decide))
@@ -776,10 +776,10 @@ theorem cS_ok (lib : Placed p B) (fok : FnsOK p ck B dA fa fns) :
                     exact Concl.pre' r02 km2 (L m2 hi2 km2) (post_conv rfl)
                 · simp only [hn2, if_false, Option.pure_def, Option.some.injEq, Prod.mk.injEq] at hex
                   obtain ⟨rfl, rfl, rfl⟩ := hex
-                  have hsc : ∀ m1, Keep p.w m m1 (md.kb F p.w) → Safe p B dA ra lp md sb fns Γ env2 F D o (pc + nC + nT + nE) m1 res2 cont := fun m1 km1 =>
+                  have hsc : ∀ m1, Keep p.w m m1 (md.kb F p.w) → Safe p B dA ra lp md sb dc fns Γ env2 F D o (pc + nC + nT + nE) m1 res2 cont := fun m1 km1 =>
                     hs.sub' (by simp only [noTry, Bool.and_eq_true]; exact fun h => h.1.2)
                       (by simp only [youLevel, Bool.and_eq_true]; exact fun h => h.1.2) km1 (convN env2 res2 hn2 _ _)
-                  have hsbd : Safe p B dA ra ⟨pc + nC + nT, pc + nC + nT + nE + 2, lp.vd⟩ md sb fns Γ env1 F D o (pc + nC + nT) m0 res1 body := by
+                  have hsbd : Safe p B dA ra ⟨pc + nC + nT, pc + nC + nT + nE + 2, lp.vd⟩ md sb dc fns Γ env1 F D o (pc + nC + nT) m0 res1 body := by
                     rcases hs with ⟨hmd, hvd, h, hw⟩ | ⟨hmd, hvd, h1, hst, h2⟩
                     · left; simp only [noTry, Bool.and_eq_true] at h
                       refine ⟨hmd, hvd, h.1.1, hw.imp id (fun hf => ⟨hf.1, fun st1 hp1 => ?_⟩)⟩
@@ -788,7 +788,7 @@ theorem cS_ok (lib : Placed p B) (fok : FnsOK p ck B dA fa fns) :
                       dsimp only at hpc1 hi1 k01
                       subst hpc1
                       have km1 := km0.kb.trans' k01
-                      have hcc := ih F D ra hra lp hlp md sb cont Γ env1 (pc + nC + nT) o m1 env2 tr2 res2 hplE (by rw [hlenE]; omega) hi1 hd hwc (by omega) ho hb2 hck
+                      have hcc := ih F D ra hra lp hlp md sb dc cont Γ env1 (pc + nC + nT) o m1 env2 tr2 res2 hplE (by rw [hlenE]; omega) hi1 hd hwc (by omega) ho hb2 hck
                         (by rw [hlenE]; exact hsc m1 km1)
                       rw [hlenE] at hcc
                       obtain ⟨st2, r2, hp2⟩ := hcc.2 (fun _ => hf.1)
@@ -801,12 +801,12 @@ theorem cS_ok (lib : Placed p B) (fok : FnsOK p ck B dA fa fns) :
                       dsimp only at hpc1 hi1 k01
                       subst hpc1
                       have km1 := km0.kb.trans' k01
-                      have hcc := ih F D ra hra lp hlp md sb cont Γ env1 (pc + nC + nT) o m1 env2 tr2 res2 hplE (by rw [hlenE]; omega) hi1 hd hwc (by omega) ho hb2 hck
+                      have hcc := ih F D ra hra lp hlp md sb dc cont Γ env1 (pc + nC + nT) o m1 env2 tr2 res2 hplE (by rw [hlenE]; omega) hi1 hd hwc (by omega) ho hb2 hck
                         (by rw [hlenE]; exact hsc m1 km1)
                       rw [hlenE] at hcc
                       obtain ⟨st2, r2, hp2⟩ := hcc.2 (nd (exec_no_defeat _ _ _ _ _ _ _ _ _ _ _ _ _ h1.1.2 hb2))
                       exact (r2.exec (h2 st2 (convN env2 res2 hn2 _ _ st2 (hp2.rebase km1)))).2
-                  have hbb := ih F D ra hra ⟨pc + nC + nT, pc + nC + nT + nE + 2, lp.vd⟩ hlpB md sb body Γ env (pc + nC) o m0 env1 tr1 res1 hplT (by rw [hlenT]; omega) hinv0 hd hwb (by omega) ho hb1 hfo1
+                  have hbb := ih F D ra hra ⟨pc + nC + nT, pc + nC + nT + nE + 2, lp.vd⟩ hlpB md sb dc body Γ env (pc + nC) o m0 env1 tr1 res1 hplT (by rw [hlenT]; omega) hinv0 hd hwb (by omega) ho hb1 hfo1
                     (by rw [hlenT]; exact hsbd)
                   rw [hlenT] at hbb
                   obtain ⟨st1, r1, hp1⟩ := hbb.2 (nd hnd1)
@@ -815,7 +815,7 @@ theorem cS_ok (lib : Placed p B) (fok : FnsOK p ck B dA fa fns) :
                   dsimp only at hpc1 hi1 k01
                   subst hpc1
                   have km1 := km0.kb.trans' k01
-                  have hcc := ih F D ra hra lp hlp md sb cont Γ env1 (pc + nC + nT) o m1 env2 tr2 res2 hplE (by rw [hlenE]; omega) hi1 hd hwc (by omega) ho hb2 hck
+                  have hcc := ih F D ra hra lp hlp md sb dc cont Γ env1 (pc + nC + nT) o m1 env2 tr2 res2 hplE (by rw [hlenE]; omega) hi1 hd hwc (by omega) ho hb2 hck
                     (by rw [hlenE]; exact hsc m1 km1)
                   rw [hlenE] at hcc
                   have r01 : Reach (sphinx p) ⟨pc, m⟩ tr1 ⟨pc + nC + nT, m1⟩ := by simpa using r0.trans r1
@@ -834,10 +834,10 @@ theorem cS_ok (lib : Placed p B) (fok : FnsOK p ck B dA fa fns) :
                   have contK : ∀ m1, SInv p md Γ env1 m1 F D o ra → Keep p.w m m1 (md.kb F p.w) →
                       Concl p B ra lp md Γ env3 F D o (pc + nC + nT + nE + 2)
                         (pc + nC + nT + nE + 2 + (cS (cxOf p ck B dA) fa lp Γ (pc + nC + nT + nE + 2) o k).length) m1 tr3 res3 :=
-                    fun m1 hi1 km1 => ih F D ra hra lp hlp md sb k Γ env1 (pc + nC + nT + nE + 2) o m1 env3 tr3 res3 hplK (by omega) hi1 hd hwk (by omega) ho hk hck
+                    fun m1 hi1 km1 => ih F D ra hra lp hlp md sb dc k Γ env1 (pc + nC + nT + nE + 2) o m1 env3 tr3 res3 hplK (by omega) hi1 hd hwk (by omega) ho hk hck
                       (hs.sub' (by simp only [noTry, Bool.and_eq_true]; exact fun h => h.2)
                         (by simp only [youLevel, Bool.and_eq_true]; exact fun h => h.2) km1 (post_conv rfl))
-                  have hsbd : Safe p B dA ra ⟨pc + nC + nT, pc + nC + nT + nE + 2, lp.vd⟩ md sb fns Γ env1 F D o (pc + nC + nT) m0 .brk body := by
+                  have hsbd : Safe p B dA ra ⟨pc + nC + nT, pc + nC + nT + nE + 2, lp.vd⟩ md sb dc fns Γ env1 F D o (pc + nC + nT) m0 .brk body := by
                     rcases hs with ⟨hmd, hvd, h, hw⟩ | ⟨hmd, hvd, h1, hst, h2⟩
                     · left; simp only [noTry, Bool.and_eq_true] at h
                       refine ⟨hmd, hvd, h.1.1, hw.imp id (fun hf => ⟨hf.1, fun st1 hp1 => ?_⟩)⟩
@@ -859,7 +859,7 @@ theorem cS_ok (lib : Placed p B) (fok : FnsOK p ck B dA fa fns) :
                       have km1 := km0.kb.trans' k01
                       obtain ⟨st', r2, hp2⟩ := (contK m1 hi1 km1).2 (nd (exec_no_defeat _ _ _ _ _ _ _ _ _ _ _ _ _ h1.2 hk))
                       exact (r2.exec (h2 st' (hp2.rebase km1))).2
-                  have hbb := ih F D ra hra ⟨pc + nC + nT, pc + nC + nT + nE + 2, lp.vd⟩ hlpB md sb body Γ env (pc + nC) o m0 env1 tr1 .brk hplT (by rw [hlenT]; omega) hinv0 hd hwb (by omega) ho hb1 trivial
+                  have hbb := ih F D ra hra ⟨pc + nC + nT, pc + nC + nT + nE + 2, lp.vd⟩ hlpB md sb dc body Γ env (pc + nC) o m0 env1 tr1 .brk hplT (by rw [hlenT]; omega) hinv0 hd hwb (by omega) ho hb1 trivial
                     (by rw [hlenT]; exact hsbd)
                   obtain ⟨st1, r1, hp1⟩ := hbb.2 (nd (by decide))
                   obtain ⟨pc1, m1⟩ := st1
@@ -874,14 +874,14 @@ theorem cS_ok (lib : Placed p B) (fok : FnsOK p ck B dA fa fns) :
                 obtain ⟨rfl, rfl, rfl⟩ := hex
                 have hnn : res1 ≠ .norm := fun h => hn1 (Or.inl h)
                 have hnc : res1 ≠ .cnt := fun h => hn1 (Or.inr h)
-                have hsb1 : Safe p B dA ra ⟨pc + nC + nT, pc + nC + nT + nE + 2, lp.vd⟩ md sb fns Γ env1 F D o (pc + nC + nT) m0 res1 body := by
+                have hsb1 : Safe p B dA ra ⟨pc + nC + nT, pc + nC + nT + nE + 2, lp.vd⟩ md sb dc fns Γ env1 F D o (pc + nC + nT) m0 res1 body := by
                   rcases hs with ⟨hmd, hvd, h, hw⟩ | ⟨hmd, hvd, h1, hst, h2⟩
                   · left; simp only [noTry, Bool.and_eq_true] at h
                     exact ⟨hmd, hvd, h.1.1, hw.imp id (fun hf => ⟨hf.1, fun st1 hp1 => hf.2 st1 (convB env1 res1 hnn hnc hbk _ _ m st1 (hp1.rebase km0.kb))⟩)⟩
                   · right
                     simp only [youLevel, Bool.and_eq_true] at h1
                     exact ⟨hmd, hvd, h1.1.1, fun e => by rw [km0.size]; exact hst e, fun st1 hp1 => h2 st1 (convB env1 res1 hnn hnc hbk _ _ m st1 (hp1.rebase km0.kb))⟩
-                have hbb := ih F D ra hra ⟨pc + nC + nT, pc + nC + nT + nE + 2, lp.vd⟩ hlpB md sb body Γ env (pc + nC) o m0 env1 tr1 res1 hplT (by rw [hlenT]; omega) hinv0 hd hwb (by omega) ho hb1 hck
+                have hbb := ih F D ra hra ⟨pc + nC + nT, pc + nC + nT + nE + 2, lp.vd⟩ hlpB md sb dc body Γ env (pc + nC) o m0 env1 tr1 res1 hplT (by rw [hlenT]; omega) hinv0 hd hwb (by omega) ho hb1 hck
                   (by rw [hlenT]; exact hsb1)
                 rw [hlenT] at hbb
                 refine ⟨fun hd' hv => r0.1 (hbb.1 hd' hv), fun hn' => ?_⟩
@@ -890,9 +890,34 @@ theorem cS_ok (lib : Placed p B) (fok : FnsOK p ck B dA fa fns) :
     | tryUndo body handler k =>
       rcases hs with ⟨_, _, h, _⟩ | ⟨hmd, hvd, h1, hst, h2⟩
       · simp [noTry] at h
-      · subst hmd
+      · obtain ⟨hiy, hdc0, hsf⟩ := hmd
+        subst hdc0
         simp only [youLevel, Bool.and_eq_true] at h1
         obtain ⟨⟨hntb, hplh⟩, hyk⟩ := h1
+        obtain ⟨w, rfl⟩ : ∃ w, md = .you w := by
+          cases md with
+          | you w => exact ⟨w, rfl⟩
+          | plain => cases hiy
+          | stop a v => cases hiy
+        -- the body of the `try` is a defeat context: in programs with the word `defeat` it may call defeat
+        -- functions, which go through that word; at this level it holds the address of a `halt`
+        have hmdb : ∃ mdb : Md, mdb.kb F p.w = F ∧ mdb.isYou = false ∧ SInv p mdb Γ env m F D o ra ∧ HaltW p mdb ∧
+            ((∃ v, mdb = .stop dA v) ∨ ∀ fd ∈ fns, fd.dfn = false) := by
+          cases hsb : sb with
+          | false => exact ⟨.plain, rfl, rfl, hinv.toMd rfl, HaltW.plain, Or.inr (hsf hsb)⟩
+          | true =>
+            obtain ⟨_, _, _, hw'⟩ := hst hsb
+            cases hw'
+            refine ⟨.stop dA (B + off_halt), rfl, rfl, hinv.reMd rfl, ?_, Or.inl ⟨_, rfl⟩⟩
+            intro a v e m'
+            cases e
+            exact Halts.halt (sys := sphinx p) (step_halt (m := m') (halt_at lib))
+        obtain ⟨mdb, hkbb, hiyb, hinvb, hWb, hdcb⟩ := hmdb
+        have hsafeB : ∀ (envx : Env) (resx : Res) (e0 : Nat), Safe p B dA ra lp mdb sb true fns Γ envx F D o e0 m resx body := fun envx resx e0 =>
+          Or.inl ⟨hiyb, ⟨(by intro h; rw [hvd] at h; cases h), fun _ => hdcb⟩, hntb, Or.inl hWb⟩
+        have hsafeH : ∀ (envx : Env) (resx : Res) (e0 : Nat), Safe p B dA ra lp .plain sb false fns Γ envx F D o e0 m resx handler := fun envx resx e0 =>
+          Or.inl ⟨rfl, ⟨(by intro h; rw [hvd] at h; cases h), (by intro h; cases h)⟩, plain_noTry _ _ hplh, Or.inl HaltW.plain⟩
+        have hdw : DReg p (.you w) m F := hinv.dreg
         simp only [wfS, Bool.and_eq_true] at hwf
         obtain ⟨⟨hwb, hwh⟩, hwk⟩ := hwf
         simp only [pkS] at hpk
@@ -911,7 +936,7 @@ theorem cS_ok (lib : Placed p B) (fok : FnsOK p ck B dA fa fns) :
         have s0 := step_j (m := m) (placed_one hplJ) (ev_imm (pc + 1 + nB + 2))
         rw [show (pc + 1 + nB + 2) % p.M = pc + 1 + nB + 2 from Nat.mod_eq_of_lt (by unfold Prog.M; omega)] at s0
         have convN : ∀ (envx : Env) (resx : Res), resx ≠ .norm → ∀ (e1 e2 : Nat) st',
-            Post p B ra lp Md.you Γ envx F D o e1 m resx st' → Post p B ra lp Md.you Γ envx F D o e2 m resx st' := by
+            Post p B ra lp (Md.you w) Γ envx F D o e1 m resx st' → Post p B ra lp (Md.you w) Γ envx F D o e2 m resx st' := by
           intro envx resx hx e1 e2 st' h
           cases resx with
           | norm => exact absurd rfl hx
@@ -924,15 +949,15 @@ theorem cS_ok (lib : Placed p B) (fok : FnsOK p ck B dA fa fns) :
           | cnt => simpa [Post] using h
         -- the rest of the list, from any state at `end_try` reachable from `m`
         have contK : ∀ (env1 : Env) (m1 : Mem) (env3 : Env) (tr3 : List Ev) (res3 : Res),
-            SInv p Md.you Γ env1 m1 F D o ra → Keep p.w m m1 (Md.you.kb F p.w) →
+            SInv p (Md.you w) Γ env1 m1 F D o ra → Keep p.w m m1 ((Md.you w).kb F p.w) →
             exec (256 ^ p.w) (8 * p.w) fns p.w f D o env1 k = some (env3, tr3, res3) → FaultOK ck fns p.w res3 →
-            (∀ st', Post p B ra lp Md.you Γ env3 F D o (pc + 1 + nB + 2 + nH + (cS (cxOf p ck B dA) fa lp Γ (pc + 1 + nB + 2 + nH) o k).length) m res3 st' →
+            (∀ st', Post p B ra lp (Md.you w) Γ env3 F D o (pc + 1 + nB + 2 + nH + (cS (cxOf p ck B dA) fa lp Γ (pc + 1 + nB + 2 + nH) o k).length) m res3 st' →
               ¬ Halts (sphinx p) st') →
-            Concl p B ra lp Md.you Γ env3 F D o (pc + 1 + nB + 2 + nH)
+            Concl p B ra lp (Md.you w) Γ env3 F D o (pc + 1 + nB + 2 + nH)
               (pc + 1 + nB + 2 + nH + (cS (cxOf p ck B dA) fa lp Γ (pc + 1 + nB + 2 + nH) o k).length) m1 tr3 res3 :=
           fun env1 m1 env3 tr3 res3 hi1 km1 hk hck3 hfin =>
-            ih F D ra hra lp hlp Md.you sb k Γ env1 (pc + 1 + nB + 2 + nH) o m1 env3 tr3 res3 hplK (by omega) hi1 hd hwk (by omega) ho hk hck3
-              (Or.inr ⟨rfl, hvd, hyk, fun e => by rw [km1.size]; exact hst e, fun st' hp => hfin st' (hp.rebase km1)⟩)
+            ih F D ra hra lp hlp (Md.you w) sb false k Γ env1 (pc + 1 + nB + 2 + nH) o m1 env3 tr3 res3 hplK (by omega) hi1 hd hwk (by omega) ho hk hck3
+              (Or.inr ⟨⟨rfl, rfl, hsf⟩, hvd, hyk, fun e => by rw [km1.size]; exact hst e, fun st' hp => hfin st' (hp.rebase km1)⟩)
         simp only [exec] at hex
         cases hb1 : exec (256 ^ p.w) (8 * p.w) fns p.w f D o env body with
         | none => simp [hb1] at hex
@@ -943,8 +968,8 @@ theorem cS_ok (lib : Placed p B) (fok : FnsOK p ck B dA fa fns) :
           · -- the body would be defeated: the Turing jump goes to the handler, in the state before the try
             subst hdft
             simp only [if_true] at hex
-            have hbb := ih F D ra hra lp hlp .plain sb body Γ env (pc + 1) o m env1 tr1 .defeat hplB (by rw [hlenB]; omega) (hinv.toMd (by intro a v h; cases h)) hd hwb (by omega) ho hb1
-              trivial (Or.inl ⟨(by intro h; cases h), (by intro h; rw [hvd] at h; cases h), hntb, Or.inl HaltW.plain⟩)
+            have hbb := ih F D ra hra lp hlp mdb sb true body Γ env (pc + 1) o m env1 tr1 .defeat hplB (by rw [hlenB]; omega) hinvb hd hwb (by omega) ho hb1
+              trivial (hsafeB _ _ _)
             have jt : Reach (sphinx p) ⟨pc, m⟩ [] ⟨pc + 1 + nB + 2, m⟩ := Reach.jump_taken' (sys := sphinx p) s0 (hbb.1 rfl hvd)
             cases hh2 : exec (256 ^ p.w) (8 * p.w) fns p.w f D o env handler with
             | none => simp [hh2] at hex
@@ -961,11 +986,11 @@ theorem cS_ok (lib : Placed p B) (fok : FnsOK p ck B dA fa fns) :
                   obtain ⟨env3, tr3, res3⟩ := rk
                   simp only [hk, Option.bind_some, Option.pure_def, Option.some.injEq, Prod.mk.injEq] at hex
                   obtain ⟨rfl, rfl, rfl⟩ := hex
-                  have hhh := ih F D ra hra lp hlp .plain sb handler Γ env (pc + 1 + nB + 2) o m env2 tr2 .norm hplH (by rw [hlenH]; omega) (hinv.toMd (by intro a v h; cases h)) hd hwh (by omega) ho hh2
-                    trivial (Or.inl ⟨(by intro h; cases h), (by intro h; rw [hvd] at h; cases h), plain_noTry _ _ hplh, Or.inl HaltW.plain⟩)
+                  have hhh := ih F D ra hra lp hlp .plain sb false handler Γ env (pc + 1 + nB + 2) o m env2 tr2 .norm hplH (by rw [hlenH]; omega) (hinv.toMd rfl) hd hwh (by omega) ho hh2
+                    trivial (hsafeH _ _ _)
                   rw [hlenH] at hhh
                   obtain ⟨st2, r2, hp2⟩ := hhh.2 (nd (by decide))
-                  have hp2 := hp2.toYou
+                  have hp2 := hp2.toYou rfl hdw (by decide)
                   obtain ⟨pc2, m2⟩ := st2
                   simp only [Post] at hp2
                   obtain ⟨hpc2, hi2, km2⟩ := hp2
@@ -974,11 +999,11 @@ theorem cS_ok (lib : Placed p B) (fok : FnsOK p ck B dA fa fns) :
                   exact Concl.pre' r02 km2 (contK env2 m2 env3 tr3 res3 hi2 km2 hk hck h2) (post_conv rfl)
               · simp only [hn2, if_false, Option.pure_def, Option.some.injEq, Prod.mk.injEq] at hex
                 obtain ⟨rfl, rfl, rfl⟩ := hex
-                have hhh := ih F D ra hra lp hlp .plain sb handler Γ env (pc + 1 + nB + 2) o m env2 tr2 res2 hplH (by rw [hlenH]; omega) (hinv.toMd (by intro a v h; cases h)) hd hwh (by omega) ho hh2
-                  hck (Or.inl ⟨(by intro h; cases h), (by intro h; rw [hvd] at h; cases h), plain_noTry _ _ hplh, Or.inl HaltW.plain⟩)
-                simpa using Concl.pre jt (Keep.refl _ _ _) hhh.toYou (convN env2 res2 hn2 _ _)
+                have hhh := ih F D ra hra lp hlp .plain sb false handler Γ env (pc + 1 + nB + 2) o m env2 tr2 res2 hplH (by rw [hlenH]; omega) (hinv.toMd rfl) hd hwh (by omega) ho hh2
+                  hck (hsafeH _ _ _)
+                simpa using Concl.pre jt (Keep.refl _ _ _) (hhh.toYou rfl hdw hnd2) (convN env2 res2 hn2 _ _)
           · simp only [hdft, if_false] at hex
-            have hbb := ih F D ra hra lp hlp .plain sb body Γ env (pc + 1) o m env1 tr1 res1 hplB (by rw [hlenB]; omega) (hinv.toMd (by intro a v h; cases h)) hd hwb (by omega) ho hb1
+            have hbb := ih F D ra hra lp hlp mdb sb true body Γ env (pc + 1) o m env1 tr1 res1 hplB (by rw [hlenB]; omega) hinvb hd hwb (by omega) ho hb1
             by_cases hn : res1 = .norm
             · subst hn
               simp only [if_true] at hex
@@ -988,10 +1013,10 @@ theorem cS_ok (lib : Placed p B) (fok : FnsOK p ck B dA fa fns) :
                 obtain ⟨env3, tr3, res3⟩ := rk
                 simp only [hk, Option.bind_some, Option.pure_def, Option.some.injEq, Prod.mk.injEq] at hex
                 obtain ⟨rfl, rfl, rfl⟩ := hex
-                have hbb' := hbb trivial (Or.inl ⟨(by intro h; cases h), (by intro h; rw [hvd] at h; cases h), hntb, Or.inl HaltW.plain⟩)
+                have hbb' := hbb trivial (hsafeB _ _ _)
                 rw [hlenB] at hbb'
                 obtain ⟨st1, r1, hp1⟩ := hbb'.2 (nd (by decide))
-                have hp1 := hp1.toYou
+                have hp1 := hp1.toYou hkbb hdw (by decide)
                 obtain ⟨pc1, m1⟩ := st1
                 simp only [Post] at hp1
                 obtain ⟨hpc1, hi1, km1⟩ := hp1
@@ -1006,9 +1031,9 @@ theorem cS_ok (lib : Placed p B) (fok : FnsOK p ck B dA fa fns) :
                 exact ⟨fun hd' => absurd hd' hnd3, fun _ => ⟨st', by simpa using jn.trans rbody, hp3.rebase km1⟩⟩
             · simp only [hn, if_false, Option.pure_def, Option.some.injEq, Prod.mk.injEq] at hex
               obtain ⟨rfl, rfl, rfl⟩ := hex
-              have hbb' := hbb hck (Or.inl ⟨(by intro h; cases h), (by intro h; rw [hvd] at h; cases h), hntb, Or.inl HaltW.plain⟩)
+              have hbb' := hbb hck (hsafeB _ _ _)
               obtain ⟨st1, r1, hp1⟩ := hbb'.2 (nd hdft)
-              have hp1 := hp1.toYou
+              have hp1 := hp1.toYou hkbb hdw hdft
               have hp1' := convN env1 res1 hn _ (pc + 1 + nB + 2 + nH + (cS (cxOf p ck B dA) fa lp Γ (pc + 1 + nB + 2 + nH) o k).length) st1 hp1
               have nh1 : ¬ Halts (sphinx p) ⟨pc + 1, m⟩ := (r1.exec (h2 st1 hp1')).2
               have jn := Reach.jump_not_taken (sys := sphinx p) s0 (fun hh => absurd hh nh1)
@@ -1089,12 +1114,21 @@ theorem cS_ok (lib : Placed p B) (fok : FnsOK p ck B dA fa fns) :
       simp only [cS] at hpl hB hs ⊢
       obtain ⟨hpl1, hpl2⟩ := hpl.append
       rw [List.length_append] at hB hs ⊢
-      -- a defeat function is only called where defeat calls go through the word `defeat`
-      have hvdT : isDfn fns g = true → lp.vd = true := fun hd => by simpa [hd] using hdv
+      -- a defeat function is only called in a defeat context, where the situation knows the word `defeat`
+      have hdcT : isDfn fns g = true → dc = true := fun hd => by simpa [hd] using hdv
+      have hnoD : isDfn fns g = true → ¬ ∀ fd ∈ fns, fd.dfn = false := fun hd hall => by
+        unfold isDfn at hd
+        cases hfind : fns.find? (fun fd => fd.name == g) with
+        | none => simp [hfind] at hd
+        | some fd => simp only [hfind] at hd; rw [hall fd (List.mem_of_find?_eq_some hfind)] at hd; cases hd
       have hdfc : isDfn fns g = true → ∃ v, md = .stop dA v := fun hd => by
-        rcases hs with ⟨_, hvd, _⟩ | ⟨_, hvd, _⟩
-        · exact hvd (hvdT hd)
-        · rw [hvd] at hvdT; exact absurd (hvdT hd) (by decide)
+        rcases hs with ⟨_, hvd, _⟩ | ⟨hmd, _⟩
+        · rcases hvd.2 (hdcT hd) with h | h
+          · exact h
+          · exact absurd h (hnoD hd)
+        · rw [hmd.2.1] at hdcT; exact absurd (hdcT hd) (by decide)
+      have hNb : isDfn fns g = true → md.isYou = false := fun hd => by
+        obtain ⟨v, hv⟩ := hdfc hd; rw [hv]; rfl
       simp only [exec] at hex
       cases hcw : callWith (256 ^ p.w) (8 * p.w) fns p.w (exec (256 ^ p.w) (8 * p.w) fns p.w f) D o env g args with
       | none => simp [hcw] at hex
@@ -1110,18 +1144,27 @@ theorem cS_ok (lib : Placed p B) (fok : FnsOK p ck B dA fa fns) :
                (some rf = some .defeat → ∀ st', (∃ a v, md = .stop a v ∧ st'.pc = v ∧ SInvD p md Γ env st'.mem F D o ra ∧
                   KeepD p.w m st'.mem (md.kb F p.w)) → ¬ Halts (sphinx p) st')) := by
             intro hd
-            rcases hs with ⟨_, _, _, hwld⟩ | ⟨_, hvd, _⟩
+            rcases hs with ⟨_, _, _, hwld⟩ | ⟨hmd, _⟩
             · rcases hwld with h | ⟨_, fin⟩
               · exact Or.inl h
               · exact Or.inr ⟨fun h => (by cases h), fun h st' hp => by
                   simp only [Option.some.injEq] at h; subst h; exact fin st' hp⟩
-            · rw [hvd] at hvdT; exact absurd (hvdT hd) (by decide)
+            · rw [hNb hd] at hmd; exact absurd hmd.1 (by decide)
           have hc := hcall g args trc (some rf) rv hpl1 (by omega) hba (by omega) hcw (fun r h => by cases h; exact hck) hdfc hwldF
           rcases callWith_fault hcw with h | h | ⟨h, hd⟩ <;> subst h
           · obtain ⟨m', r⟩ := hc.1 rfl; exact fault _ _ _ _ m' _ r
           · obtain ⟨m', r⟩ := hc.2.1 rfl; exact faultO _ _ _ _ m' _ r
           · obtain ⟨st', r, hp⟩ := hc.2.2.2 rfl
-            exact ⟨fun _ hf => absurd ((hvdT hd).symm.trans hf) (by decide), fun _ => ⟨st', r, hp⟩⟩
+            refine ⟨fun _ hf => ?_, fun _ => ⟨st', r, hp⟩⟩
+            -- a defeat context that is not the body of a `try/stop`: the handler is a `halt`
+            rcases hs with ⟨_, _, _, hwld⟩ | ⟨hmd, _⟩
+            · rcases hwld with hW | ⟨hv, _⟩
+              · obtain ⟨a, v, e, hpcv, _, _⟩ := hp
+                obtain ⟨pc', m'⟩ := st'
+                simp only at hpcv; subst hpcv
+                exact r.1 (hW a _ e m')
+              · rw [hf] at hv; cases hv
+            · rw [hNb hd] at hmd; exact absurd hmd.1 (by decide)
         | none =>
           simp only [hcw] at hex
           cases hk : exec (256 ^ p.w) (8 * p.w) fns p.w f D o env k with
@@ -1132,7 +1175,7 @@ theorem cS_ok (lib : Placed p B) (fok : FnsOK p ck B dA fa fns) :
             obtain ⟨rfl, rfl, rfl⟩ := hex
             -- the rest of the list, from any state in which the call can return
             have hkkOf : ∀ m1, Keep p.w m m1 (F - o) → _ := fun m1 k1 =>
-              ih F D ra hra lp hlp md sb k Γ env _ o m1 envk trk resk hpl2 (by omega)
+              ih F D ra hra lp hlp md sb dc k Γ env _ o m1 envk trk resk hpl2 (by omega)
                 (hinv.keep k1 ho) hd hwk (by omega) ho hk hck
                 (hs.sub (by simp [noTry]) (by simp [youLevel]) (k1.mono (by omega)) (post_conv (by omega)))
             have hwldN : isDfn fns g = true → HaltW p md ∨
@@ -1141,13 +1184,13 @@ theorem cS_ok (lib : Placed p B) (fok : FnsOK p ck B dA fa fns) :
                  ((none : Option Res) = some .defeat → ∀ st', (∃ a v, md = .stop a v ∧ st'.pc = v ∧ SInvD p md Γ env st'.mem F D o ra ∧
                     KeepD p.w m st'.mem (md.kb F p.w)) → ¬ Halts (sphinx p) st')) := by
               intro hd
-              rcases hs with ⟨_, _, _, hwld⟩ | ⟨_, hvd, _⟩
+              rcases hs with ⟨_, _, _, hwld⟩ | ⟨hmd, _⟩
               · rcases hwld with h | ⟨hv, fin⟩
                 · exact Or.inl h
                 · refine Or.inr ⟨fun _ m' k' => ?_, fun h => (by cases h)⟩
                   obtain ⟨st', r2, hp2⟩ := (hkkOf m' k').2 (fun _ => hv)
                   exact (r2.exec (fin st' (post_conv (by omega) st' (hp2.rebase (k'.mono (by omega)).kb)))).2
-              · rw [hvd] at hvdT; exact absurd (hvdT hd) (by decide)
+              · rw [hNb hd] at hmd; exact absurd hmd.1 (by decide)
             obtain ⟨m1, r1, k1, _⟩ := (hcall g args trc none rv hpl1 (by omega) hba (by omega) hcw
               (fun r h => by cases h) hdfc hwldN).2.2.1 rfl
             exact Concl.pre r1 (k1.mono (by omega)) (hkkOf m1 k1) (post_conv (by omega))
@@ -1209,7 +1252,7 @@ theorem cS_ok (lib : Placed p B) (fok : FnsOK p ck B dA fa fns) :
                 | cnt =>
                   simp only [Post] at hpost ⊢
                   exact ⟨hpost.1, decl_back hinv x hpost.2.1 hxn, hpost.2.2⟩
-              have hkk := ih F D ra hra lp hlp md sb k ((x, o + p.w) :: Γ) (upd env x v) _ (o + p.w) m1 envk trk resk hpl2 (by omega)
+              have hkk := ih F D ra hra lp hlp md sb dc k ((x, o + p.w) :: Γ) (upd env x v) _ (o + p.w) m1 envk trk resk hpl2 (by omega)
                 hinv1 hd1 (by simpa using hwk) (by omega) (by omega) hk hck
                 (hs.sub (by simp [noTry]) (by simp [youLevel]) (k1.mono (by omega)) (conv _ _ (by omega)))
               exact Concl.pre r1 (k1.mono (by omega)) hkk (conv _ _ (by omega))
@@ -1276,7 +1319,7 @@ theorem cS_ok (lib : Placed p B) (fok : FnsOK p ck B dA fa fns) :
               have hinv3 := assign_inv hw hinv2 hd x v hvM hxin hoD
               have km3 : Keep p.w m (m2.writeLE (F - look Γ x) p.w v) F :=
                 ((k1.mono (by omega)).trans' (k12.mono (by omega))).trans' (Keep.write _ _ _ _ _ _ (by omega) (by omega))
-              have hkk := ih F D ra hra lp hlp md sb k Γ (upd env x v) _ o _ envk trk resk hpl3 (by omega)
+              have hkk := ih F D ra hra lp hlp md sb dc k Γ (upd env x v) _ o _ envk trk resk hpl3 (by omega)
                 hinv3 hd hwk (by omega) ho hk hck (hs.sub (by simp [noTry]) (by simp [youLevel]) km3 (post_conv (by omega)))
               have r01 : Reach (sphinx p) ⟨pc, m⟩ trc
                   ⟨pc + ((cCall (cxOf p ck B dA) fa Γ pc o g args).length + 2), m2.writeLE (F - look Γ x) p.w v⟩ := by
@@ -1296,7 +1339,7 @@ theorem cS_ok (lib : Placed p B) (fok : FnsOK p ck B dA fa fns) :
       have g := goto_reach lib pc lp.cont m hpl hlp.1
       exact ⟨fun h => absurd h (by decide), fun _ => ⟨⟨lp.cont, m⟩, g, by simp only [Post]; exact ⟨trivial, hinv, Keep.refl _ _ _⟩⟩⟩
     | tryStop body handler k =>
-      exact tryStop_ok lib fok f ih F D ra hra lp hlp md sb body handler k Γ env pc o m env' tr res hpl hB hinv hd hwf hpk ho hex hck hs
+      exact tryStop_ok lib fok f ih F D ra hra lp hlp md sb dc body handler k Γ env pc o m env' tr res hpl hB hinv hd hwf hpk ho hex hck hs
 end
 
 end HidVerif.Core
